@@ -24,6 +24,7 @@ RULES = [
     Rule('C18.R4', 'a failing bank load stores nothing into synth/setup state before returning', 8),
     Rule('C18.R5', 'every failing path of the four loaders leaves a non-empty error text', 4),
     Rule('C18.R6', 'a callback slot and its user-data slot are re-wired from a matching pair', 12),
+    Rule('C18.R10', 'a setter withholds its live store under the setup lock only for the fields the locked formats force', 3),
     Rule('C18.R9', 'every track / channel number handed to the sequencer by a setter is validated there and a refusal is reported', 3),
     Rule('C18.R8', 'every chip wrapper hands the requested chip family on to its base (OPN2::reset reads the applied family back from the chip)', 6),
     Rule('C18.R7', 'accepted setting values lie in the documented range; the AUTO volume model resolves to the bank default wherever the live model is set from the setup', 3),
@@ -513,6 +514,7 @@ def analyse(facts, tier):
     obls += r7_ranges(facts)
     obls += r8_family_forwarded(facts)
     obls += r9_index_validated(facts)
+    obls += r10_lock_scope(facts)
     return obls
 
 
@@ -755,4 +757,51 @@ def r9_index_validated(facts):
                                '%s(%s) %s: an out-of-range number is stored and the call reports success (a solo track that does not exist mutes every track)' % (short(cn), idx[0].get('n'), 'returns void' if not nonvoid else 'is not checked')))
     if n < 3 and facts.view not in ('noSEQ',):
         raise build.AnalysisBroken('C18.R9: only %d index hand-overs to the sequencer found' % n)
+    return out
+
+
+def r10_lock_scope(facts):
+    """the formats that lock the setup (EA-MUS) force a few live values in LoadMIDI_post (the stores in the branch that assigns the
+    locked music mode).  Only those fields may be withheld from a setter by `!setupLocked()`: for any other field the guard makes the
+    setter report nothing and do nothing while such a song is loaded (the value set does not come into force until the next file)."""
+    out = []
+    lp = facts.fn('OPNMIDIplay::LoadMIDI_post')
+    forced = set()
+    for b, j, st in lp.cfg.stmts():
+        ap = assign_parts(st['s'])
+        if not ap:
+            continue
+        t = strip(ap[0])
+        if t.get('k') == 'MemberExpr' and short(t['n']) == 'm_musicMode' and 'RSXX' in show(ap[1]):
+            # the stores of the same block
+            for st2 in lp.cfg.blocks[b]['stmts']:
+                ap2 = assign_parts(st2['s'])
+                if ap2 and strip(ap2[0]).get('k') == 'MemberExpr':
+                    forced.add(short(strip(ap2[0])['n']))
+    forced.discard('m_musicMode')
+    if not forced:
+        raise build.AnalysisBroken('C18.R10: stores of the locked-format branch of LoadMIDI_post not found')
+    n = 0
+    for fn in exported(facts):
+        if not fn.name.startswith('opn2_set') or fn.tree is None:
+            continue
+        for b, j, st in fn.cfg.stmts():
+            ap = assign_parts(st['s'])
+            if not ap:
+                continue
+            t = strip(ap[0])
+            if not (t.get('k') == 'MemberExpr' and ('OPN2::' in t['n'])):
+                continue
+            gf = guard_facts(fn, b, st)
+            locked_guard = any(f[0] == 'truth' and not f[2] and 'setupLocked' in show(f[1]) for f in gf)
+            if not locked_guard:
+                continue
+            n += 1
+            fld = short(t['n'])
+            ok = fld in forced
+            out.append(Obl('C18.R10', fn.name, 'live store of %s withheld under the setup lock' % fld, st['loc'], 'discharged' if ok else 'finding',
+                           why='%s is forced by the locked formats (LoadMIDI_post)' % fld if ok else
+                           '%s is not one of the values the locked formats force (%s): with such a song loaded the setter stores the request but the value does not come into force' % (fld, ', '.join(sorted(forced)))))
+    if n < 2:
+        raise build.AnalysisBroken('C18.R10: lock-guarded live stores of the setters not found (%d)' % n)
     return out
